@@ -20,7 +20,7 @@ type Ctx struct {
 	PanicAt  int // effect index at which E panics (-1: never)
 	Fired    bool
 
-	Fuel int // remaining effects before the watchdog panic (0: unlimited)
+	Fuel int // effect budget of the run; beyond it every E panics with OutOfFuel (0: unlimited)
 
 	Point func() // pre-emption hook (nil: single-threaded)
 
@@ -74,11 +74,8 @@ func E(tag int, vals ...int) {
 		c.Fired = true
 		panic(Injected{idx})
 	}
-	if c.Fuel > 0 {
-		c.Fuel--
-		if c.Fuel == 0 {
-			panic(OutOfFuel{})
-		}
+	if c.Fuel > 0 && c.EffCount > c.Fuel {
+		panic(OutOfFuel{}) // and every later effect of the run panics again
 	}
 	if c.Point != nil {
 		th, h := c.Th, c.H
